@@ -207,6 +207,7 @@ def programs(tier, seed, rigid):
 def run(tier, seed):
     import core_impl as ci
     rep = Report("C01", tier, seed)
+    ci.CHECK_PURITY = True      # every operation must leave its arguments as they were
     proof_ok = common.proof_stage(rep, "C01")
     for cname in ("monoidal", "rigid"):
         cls = ci.Cls(cname)
